@@ -1,1 +1,565 @@
-//! C18: explorer JSON and recursive endpoints agree with the index (stub, filled in below).
+//! C18: explorer JSON and recursive endpoints agree with the index.
+//!
+//! A "relations" zoo (parents with 99 / 100 / 101 children revealed on one sat in one
+//! block, children with two parents, reinscriptions, lost / unbound / burned
+//! inscriptions, runes on outputs, three scripts) is indexed with every index
+//! enabled and served; for every object every route is requested and compared
+//! field by field with direct `Index` queries and the chain data.
+
+use {
+  super::{FUND, Http, Srv, SrvCfg, Zoo, env, id_value, index_zoo},
+  crate::{
+    Ctx,
+    chain::{inscriptions::observe, runes::runestone_script},
+    evidence::Report,
+    idx::{Dump, IndexCfg},
+    txkit::{self, Spk},
+    util::Scratch,
+  },
+  bitcoin::{Address, Network, OutPoint, Txid},
+  ord::{InscriptionId, api},
+  ordinals::{Charm, Rune, Sat, SatPoint},
+  serde_json::{Value, json},
+  std::collections::{BTreeMap, BTreeSet},
+};
+
+pub struct RelZoo {
+  pub zoo: Zoo,
+  pub parent: InscriptionId,
+}
+
+pub fn build(children: usize, boundary_groups: &[usize]) -> RelZoo {
+  let mut zoo = Zoo::new(80);
+  let png = |extra: &[(u8, Vec<u8>)], body: &[u8]| {
+    let mut f = vec![(1u8, b"image/png".to_vec())];
+    f.extend_from_slice(extra);
+    env(&f, Some(body))
+  };
+  // parent P0 and a second parent P1
+  let (t0, ids0) = zoo.reveal(&[png(&[], b"P0")], Spk::B.script());
+  let (t1, ids1) = zoo.reveal(&[png(&[], b"P1")], Spk::B.script());
+  let (p0, p1) = (ids0[0], ids1[0]);
+  // plain inscriptions to A and C, an unbound one, one sent to fees (lost via underpaying coinbase below), one burned
+  zoo.reveal(&[png(&[], b"plainA")], Spk::A.script());
+  zoo.reveal(&[png(&[], b"plainC"), png(&[], b"second-in-same-input")], Spk::C.script());
+  zoo.reveal(&[png(&[(22, vec![1])], b"unbound")], Spk::A.script());
+  zoo.reveal(&[png(&[], b"burned")], Spk::OpReturn.script());
+  zoo.mine();
+  // page-boundary groups: parents with exactly 99 and 100 children, each group revealed in one
+  // transaction alone in its block (so the block, the parent and the parent's sat all sit on a page boundary)
+  for k in boundary_groups {
+    let (tp, idp) = zoo.reveal(&[png(&[], format!("parent-of-{k}").as_bytes())], Spk::B.script());
+    zoo.mine();
+    let pout = OutPoint { txid: tp.compute_txid(), vout: 0 };
+    let mut script = Vec::new();
+    for i in 0..*k {
+      script.extend(png(&[(3, id_value(idp[0]))], format!("g{k}c{i}").as_bytes()));
+    }
+    zoo.tx(vec![(pout, script)], vec![(FUND, Spk::B.script())]);
+    zoo.mine();
+  }
+  // `children` children of P0 in ONE transaction spending P0's output: all on P0's sat
+  let p0_out = OutPoint { txid: t0.compute_txid(), vout: 0 };
+  let mut script = Vec::new();
+  for i in 0..children {
+    script.extend(png(&[(3, id_value(p0))], format!("child{i}").as_bytes()));
+  }
+  let kids = zoo.tx(vec![(p0_out, script)], vec![(FUND, Spk::B.script())]);
+  // a child of both parents (spends P1's output and the funding)
+  let p1_out = OutPoint { txid: t1.compute_txid(), vout: 0 };
+  let f = zoo.fund();
+  zoo.tx(vec![(f, png(&[(3, id_value(p0)), (3, id_value(p1))], b"two-parents-one-valid")), (p1_out, vec![])], vec![(FUND, Spk::C.script()), (FUND, Spk::B.script())]);
+  zoo.mine();
+  // child of P0 and P1 with both spent: spend kids output (holds P0) and P1's new output
+  let kids_out = OutPoint { txid: kids.compute_txid(), vout: 0 };
+  let last = zoo.world.blocks.last().unwrap().txdata.last().unwrap().compute_txid();
+  let p1_new = OutPoint { txid: last, vout: 1 };
+  zoo.tx(vec![(kids_out, png(&[(3, id_value(p0)), (3, id_value(p1))], b"child-of-both")), (p1_new, vec![])], vec![(FUND, Spk::B.script()), (FUND, Spk::A.script())]);
+  // runes: unnamed etching with premine, split over two outputs by an edict
+  let f = zoo.fund();
+  let rs = runestone_script(&[2, 1, 6, 1000, 0, 0, 0, 300, 1]);
+  zoo.tx(vec![(f, vec![])], vec![(FUND / 2, Spk::A.script()), (FUND / 2, Spk::C.script()), (0, rs)]);
+  // an inscription that goes to fees entirely
+  let f = zoo.fund();
+  zoo.tx(vec![(f, png(&[], b"fee-spent"))], vec![(0, Spk::OpReturn.script())]);
+  zoo.mine();
+  zoo.mine();
+  RelZoo { zoo, parent: p0 }
+}
+
+struct Ck<'a> {
+  report: &'a mut Report,
+  requests: u64,
+  cases: BTreeSet<String>,
+  outcomes: BTreeMap<String, u64>,
+}
+
+impl Ck<'_> {
+  fn fail(&mut self, class: &str, what: String, path: &str) {
+    self.report.violation(class.to_string(), what, json!({"path": path}));
+  }
+}
+
+fn get<T: serde::de::DeserializeOwned>(http: &Http, srv: &Srv, path: &str, ck: &mut Ck) -> Option<T> {
+  ck.requests += 1;
+  ck.cases.insert(path.to_string());
+  match http.get_json(&format!("{}{}", srv.url, path)) {
+    Err(e) => {
+      ck.fail("machinery/http", e, path);
+      None
+    }
+    Ok(r) => {
+      *ck.outcomes.entry(format!("{}", r.status)).or_default() += 1;
+      if r.status != 200 {
+        ck.fail("route/unexpected-status", format!("GET {path} answers {}: {}", r.status, String::from_utf8_lossy(&r.body).chars().take(160).collect::<String>()), path);
+        return None;
+      }
+      match serde_json::from_slice::<T>(&r.body) {
+        Ok(v) => Some(v),
+        Err(e) => {
+          ck.fail("route/undecodable-json", format!("GET {path}: {e}: {}", String::from_utf8_lossy(&r.body).chars().take(200).collect::<String>()), path);
+          None
+        }
+      }
+    }
+  }
+}
+
+fn status_of(http: &Http, srv: &Srv, path: &str, ck: &mut Ck) -> u16 {
+  ck.requests += 1;
+  ck.cases.insert(path.to_string());
+  http.get_json(&format!("{}{}", srv.url, path)).map(|r| r.status).unwrap_or(0)
+}
+
+pub fn run(ctx: &Ctx) -> Report {
+  let mut report = Report::new("C18", &ctx.tier, "exploration");
+  let children = if ctx.thorough() { 201 } else { 101 };
+  let groups: Vec<usize> = if ctx.thorough() { vec![99, 100, 199, 200] } else { vec![99, 100] };
+  let rz = build(children, &groups);
+  let scratch = Scratch::new("srv-json");
+  let icfg = IndexCfg::all();
+  let dir = match index_zoo(&rz.zoo.world, &scratch, "idx", &icfg) {
+    Ok(d) => d,
+    Err(e) => {
+      report.violation("machinery/index", format!("indexing the zoo failed: {e:#}"), json!({}));
+      return report;
+    }
+  };
+  let srv = match Srv::start(&rz.zoo.world, &dir, &icfg, &SrvCfg::default()) {
+    Ok(s) => s,
+    Err(e) => {
+      report.violation("machinery/server-start", format!("{e:#}"), json!({}));
+      return report;
+    }
+  };
+  let http = Http::new();
+  let index = srv.index.clone();
+  let dump = Dump::take(&index).expect("dump");
+  let obs = observe(&index, &dump).expect("observe");
+  let by_seq: BTreeMap<u32, InscriptionId> = obs.iter().map(|o| (o.seq, o.id)).collect();
+  let children_rows: Vec<(u32, u32)> = dump
+    .table("SEQUENCE_NUMBER_TO_CHILDREN")
+    .iter()
+    .map(|(k, v)| (u32::from_le_bytes(k[..4].try_into().unwrap()), u32::from_le_bytes(v[..4].try_into().unwrap())))
+    .collect();
+  let chain_txs: BTreeMap<Txid, bitcoin::Transaction> = rz.zoo.world.blocks.iter().flat_map(|b| b.txdata.iter().map(|t| (t.compute_txid(), t.clone()))).collect();
+  let mut ck = Ck { report: &mut report, requests: 0, cases: BTreeSet::new(), outcomes: BTreeMap::new() };
+  let unbound = ord::unbound_outpoint();
+
+  // ---------------- inscriptions ----------------
+  for o in &obs {
+    let id = o.id;
+    let satpoint = o.satpoint.map(|(op, off)| SatPoint { outpoint: op, offset: off });
+    let kids: Vec<InscriptionId> = children_rows.iter().filter(|(p, _)| *p == o.seq).map(|(_, c)| by_seq[c]).collect();
+    let parents: Vec<InscriptionId> = o.parents.iter().map(|p| by_seq[p]).collect();
+    let txout = satpoint.and_then(|sp| chain_txs.get(&sp.outpoint.txid).and_then(|t| t.output.get(sp.outpoint.vout as usize).cloned()));
+    let want_value = txout.as_ref().map(|t| t.value.to_sat());
+    let want_address = txout.as_ref().and_then(|t| Address::from_script(&t.script_pubkey, Network::Regtest).ok()).map(|a| a.to_string());
+    let mut want_charms = o.charms;
+    if satpoint.map(|sp| sp.outpoint == OutPoint::null()).unwrap_or(false) {
+      Charm::Lost.set(&mut want_charms);
+    }
+    for path in [format!("/inscription/{id}"), format!("/inscription/{}", o.number)] {
+      let Some(j) = get::<api::Inscription>(&http, &srv, &path, &mut ck) else { continue };
+      let mut diffs = Vec::new();
+      if j.id != id {
+        diffs.push(format!("id {} != {id}", j.id));
+      }
+      if j.number != o.number {
+        diffs.push(format!("number {} != {}", j.number, o.number));
+      }
+      if j.height != o.height {
+        diffs.push(format!("height {} != {}", j.height, o.height));
+      }
+      if j.fee != o.fee {
+        diffs.push(format!("fee {} != {}", j.fee, o.fee));
+      }
+      if j.sat.map(|s| s.0) != o.sat {
+        diffs.push(format!("sat {:?} != {:?}", j.sat, o.sat));
+      }
+      if Some(j.satpoint) != satpoint {
+        diffs.push(format!("satpoint {} != {:?}", j.satpoint, satpoint));
+      }
+      if j.charms != Charm::charms(want_charms) {
+        diffs.push(format!("charms {:?} != {:?}", j.charms, Charm::charms(want_charms)));
+      }
+      if j.child_count != kids.len() as u64 || j.children != kids.iter().take(4).cloned().collect::<Vec<_>>() {
+        diffs.push(format!("children {:?}/{} != first four of {} stored children", j.children, j.child_count, kids.len()));
+      }
+      if j.parents != parents.iter().take(4).cloned().collect::<Vec<_>>() {
+        diffs.push(format!("parents {:?} != {:?}", j.parents, parents));
+      }
+      if j.next != by_seq.get(&(o.seq + 1)).cloned() || j.previous != o.seq.checked_sub(1).and_then(|s| by_seq.get(&s).cloned()) {
+        diffs.push("next/previous do not follow sequence order".to_string());
+      }
+      if satpoint.map(|sp| sp.outpoint != unbound && sp.outpoint != OutPoint::null()).unwrap_or(false) {
+        if j.value != want_value {
+          diffs.push(format!("value {:?} != {:?}", j.value, want_value));
+        }
+        if j.address != want_address {
+          diffs.push(format!("address {:?} != {:?}", j.address, want_address));
+        }
+      } else if j.value.is_some() {
+        diffs.push(format!("value {:?} reported for an inscription without a real output", j.value));
+      }
+      if !diffs.is_empty() {
+        ck.fail("inscription/json-differs-from-index", format!("GET {path}: {}", diffs.join("; ")), &path);
+      }
+    }
+    let path = format!("/r/inscription/{id}");
+    if let Some(j) = get::<api::InscriptionRecursive>(&http, &srv, &path, &mut ck) {
+      let ok = j.id == id
+        && j.number == o.number
+        && j.height == o.height
+        && j.fee == o.fee
+        && j.sat.map(|s| s.0) == o.sat
+        && Some(j.satpoint) == satpoint
+        && Some(j.output) == satpoint.map(|s| s.outpoint)
+        && j.charms == Charm::charms(want_charms);
+      if !ok {
+        ck.fail("inscription/recursive-json-differs-from-index", format!("GET {path}: {j:?} vs stored seq {} number {} satpoint {:?}", o.seq, o.number, satpoint), &path);
+      }
+    }
+  }
+
+  // ---------------- children / parents listings with pagination ----------------
+  let paged = |base: &str, page: usize| if page == 0 && false { base.to_string() } else { format!("{base}/{page}") };
+  for o in &obs {
+    let kids: Vec<InscriptionId> = children_rows.iter().filter(|(p, _)| *p == o.seq).map(|(_, c)| by_seq[c]).collect();
+    let parents: Vec<InscriptionId> = o.parents.iter().map(|p| by_seq[p]).collect();
+    if kids.is_empty() && parents.is_empty() {
+      continue;
+    }
+    // children ids
+    let mut all = Vec::new();
+    let mut page = 0;
+    loop {
+      let path = paged(&format!("/r/children/{}", o.id), page);
+      let Some(j) = get::<api::Children>(&http, &srv, &path, &mut ck) else { break };
+      if j.ids.len() > 100 || j.page != page {
+        ck.fail("pagination/page-size-or-number", format!("GET {path}: {} ids, page {}", j.ids.len(), j.page), &path);
+      }
+      all.extend(j.ids.clone());
+      let expect_more = all.len() < kids.len();
+      if j.more != expect_more {
+        ck.fail("pagination/more-flag", format!("GET {path}: more={} but {} of {} children listed", j.more, all.len(), kids.len()), &path);
+      }
+      if !j.more || page > 5 {
+        break;
+      }
+      page += 1;
+    }
+    if all != kids {
+      ck.fail("children/listing-differs-from-index", format!("/r/children/{} pages list {} ids, stored children {}", o.id, all.len(), kids.len()), &format!("/r/children/{}", o.id));
+    }
+    if page == 0 {
+      // unpaginated form equals page 0
+      let path = format!("/r/children/{}", o.id);
+      if let Some(j) = get::<api::Children>(&http, &srv, &path, &mut ck)
+        && j.ids != kids.iter().take(100).cloned().collect::<Vec<_>>()
+      {
+        ck.fail("children/listing-differs-from-index", format!("GET {path} differs from the first 100 stored children"), &path);
+      }
+    }
+    // children inscriptions (full objects)
+    let mut all = Vec::new();
+    let mut page = 0;
+    loop {
+      let path = format!("/r/children/{}/inscriptions/{page}", o.id);
+      let Some(j) = get::<api::ChildInscriptions>(&http, &srv, &path, &mut ck) else { break };
+      all.extend(j.children.iter().map(|c| (c.id, c.number, c.satpoint)));
+      if j.more != (all.len() < kids.len()) {
+        ck.fail("pagination/more-flag", format!("GET {path}: more={} with {} of {}", j.more, all.len(), kids.len()), &path);
+      }
+      if !j.more || page > 5 {
+        break;
+      }
+      page += 1;
+    }
+    let want: Vec<(InscriptionId, i32, SatPoint)> = kids
+      .iter()
+      .map(|k| {
+        let ko = obs.iter().find(|x| x.id == *k).unwrap();
+        (ko.id, ko.number, ko.satpoint.map(|(op, off)| SatPoint { outpoint: op, offset: off }).unwrap())
+      })
+      .collect();
+    if all != want {
+      ck.fail("children/inscriptions-listing-differs-from-index", format!("/r/children/{}/inscriptions pages differ from stored children", o.id), &format!("/r/children/{}/inscriptions", o.id));
+    }
+    // parents
+    let path = format!("/r/parents/{}", o.id);
+    if let Some(j) = get::<Value>(&http, &srv, &path, &mut ck) {
+      let ids: Vec<String> = j["ids"].as_array().map(|a| a.iter().map(|x| x.as_str().unwrap_or("").to_string()).collect()).unwrap_or_default();
+      if ids != parents.iter().map(|p| p.to_string()).collect::<Vec<_>>() {
+        ck.fail("parents/listing-differs-from-index", format!("GET {path}: {ids:?} vs stored {parents:?}"), &path);
+      }
+    }
+    let path = format!("/r/parents/{}/inscriptions", o.id);
+    if let Some(j) = get::<api::ParentInscriptions>(&http, &srv, &path, &mut ck) {
+      let got: Vec<InscriptionId> = j.parents.iter().map(|p| p.id).collect();
+      if got != parents {
+        ck.fail("parents/inscriptions-listing-differs-from-index", format!("GET {path}: {got:?} vs stored {parents:?}"), &path);
+      }
+    }
+  }
+
+  // ---------------- outputs ----------------
+  let mut outpoints: Vec<OutPoint> = dump.utxo_outpoints();
+  outpoints.retain(|o| *o != OutPoint::null() && *o != unbound);
+  for op in &outpoints {
+    let want_insc = index.get_inscriptions_for_output(*op).ok().flatten().unwrap_or_default();
+    let want_runes = index.get_rune_balances_for_output(*op).ok().flatten().unwrap_or_default();
+    let want_ranges = index.list(*op).ok().flatten();
+    let txout = chain_txs.get(&op.txid).and_then(|t| t.output.get(op.vout as usize).cloned());
+    let path = format!("/output/{op}");
+    if let Some(j) = get::<api::Output>(&http, &srv, &path, &mut ck) {
+      let mut diffs = Vec::new();
+      if j.inscriptions.clone().unwrap_or_default() != want_insc {
+        diffs.push(format!("inscriptions {:?} != {:?}", j.inscriptions, want_insc));
+      }
+      if j.runes.clone().unwrap_or_default() != want_runes {
+        diffs.push(format!("runes {:?} != {:?}", j.runes, want_runes));
+      }
+      if j.sat_ranges != want_ranges {
+        diffs.push(format!("sat_ranges {:?} != {:?}", j.sat_ranges, want_ranges));
+      }
+      if let Some(t) = &txout {
+        if j.value != t.value.to_sat() || j.script_pubkey != t.script_pubkey {
+          diffs.push("value / script differ from the creating transaction".to_string());
+        }
+      }
+      // the node does not keep OP_RETURN outputs in its UTXO set, so they are reported as spent
+      let unspendable = txout.as_ref().map(|t| t.script_pubkey.is_op_return()).unwrap_or(false);
+      if (j.spent && !unspendable) || !j.indexed || j.outpoint != *op {
+        diffs.push(format!("spent={} indexed={} for an unspent indexed output", j.spent, j.indexed));
+      }
+      if !diffs.is_empty() {
+        ck.fail("output/json-differs-from-index", format!("GET {path}: {}", diffs.join("; ")), &path);
+      }
+    }
+    let path = format!("/r/utxo/{op}");
+    if let Some(j) = get::<api::UtxoRecursive>(&http, &srv, &path, &mut ck) {
+      let ok = j.inscriptions.clone().unwrap_or_default() == want_insc && j.runes.clone().unwrap_or_default() == want_runes && j.sat_ranges == want_ranges && Some(j.value) == txout.as_ref().map(|t| t.value.to_sat());
+      if !ok {
+        ck.fail("output/recursive-json-differs-from-index", format!("GET {path}: {j:?}"), &path);
+      }
+    }
+  }
+  // a spent output is reported as spent
+  {
+    let spent = rz.zoo.funding[0];
+    let path = format!("/output/{spent}");
+    if let Some(j) = get::<api::Output>(&http, &srv, &path, &mut ck)
+      && !j.spent
+    {
+      ck.fail("output/spent-output-not-marked-spent", format!("GET {path}: spent=false"), &path);
+    }
+  }
+
+  // ---------------- per-block listings ----------------
+  let tip = index.block_count().unwrap_or(0);
+  for h in 0..tip {
+    let want = index.get_inscriptions_in_block(h).unwrap_or_default();
+    let mut all = Vec::new();
+    let mut page = 0u32;
+    loop {
+      let path = if page == 0 { format!("/inscriptions/block/{h}") } else { format!("/inscriptions/block/{h}/{page}") };
+      let Some(j) = get::<api::Inscriptions>(&http, &srv, &path, &mut ck) else { break };
+      if j.ids.len() > 100 {
+        ck.fail("pagination/page-size-or-number", format!("GET {path}: {} ids", j.ids.len()), &path);
+      }
+      all.extend(j.ids.clone());
+      if j.more != (all.len() < want.len()) {
+        ck.fail("pagination/more-flag", format!("GET {path}: more={} with {} of {}", j.more, all.len(), want.len()), &path);
+      }
+      if !j.more || page > 5 {
+        break;
+      }
+      page += 1;
+    }
+    if all != want {
+      ck.fail("block/inscriptions-listing-differs-from-index", format!("/inscriptions/block/{h}: {} ids, index lists {}", all.len(), want.len()), &format!("/inscriptions/block/{h}"));
+    }
+    // model cross-check: exactly the inscriptions created at that height, in sequence order
+    let by_height: Vec<InscriptionId> = obs.iter().filter(|o| o.height == h).map(|o| o.id).collect();
+    if want != by_height {
+      ck.fail("block/index-listing-differs-from-entries", format!("height {h}"), &format!("/inscriptions/block/{h}"));
+    }
+    let path = format!("/block/{h}");
+    if let Some(j) = get::<api::Block>(&http, &srv, &path, &mut ck) {
+      let hash = index.block_hash(Some(h)).ok().flatten();
+      let runes = index.get_runes_in_block(h.into()).unwrap_or_default();
+      if Some(j.hash) != hash || j.height != h || j.inscriptions != want.iter().take(100).cloned().collect::<Vec<_>>() && j.inscriptions != want || j.runes != runes {
+        ck.fail("block/json-differs-from-index", format!("GET {path}: hash {} inscriptions {} runes {:?}", j.hash, j.inscriptions.len(), j.runes), &path);
+      }
+    }
+    let path = format!("/r/blockhash/{h}");
+    if let Some(j) = get::<String>(&http, &srv, &path, &mut ck)
+      && Some(j.clone()) != index.block_hash(Some(h)).ok().flatten().map(|x| x.to_string())
+    {
+      ck.fail("block/hash-differs-from-index", format!("GET {path}: {j}"), &path);
+    }
+  }
+  if let Some(j) = get::<u32>(&http, &srv, "/r/blockheight", &mut ck)
+    && j + 1 != tip
+  {
+    ck.fail("block/height-differs-from-index", format!("/r/blockheight {j}, block count {tip}"), "/r/blockheight");
+  }
+
+  // ---------------- sats ----------------
+  let sats: BTreeSet<u64> = obs.iter().filter_map(|o| o.sat).collect();
+  for sat in &sats {
+    let want = index.get_inscription_ids_by_sat(Sat(*sat)).unwrap_or_default();
+    // cross-check with entries: inscriptions on this sat in sequence order
+    let by_entries: Vec<InscriptionId> = obs.iter().filter(|o| o.sat == Some(*sat)).map(|o| o.id).collect();
+    if want != by_entries {
+      ck.fail("sat/index-listing-differs-from-entries", format!("sat {sat}: {} vs {}", want.len(), by_entries.len()), &format!("/r/sat/{sat}"));
+    }
+    let mut all = Vec::new();
+    let mut page = 0u64;
+    loop {
+      let path = if page == 0 { format!("/r/sat/{sat}") } else { format!("/r/sat/{sat}/{page}") };
+      let Some(j) = get::<api::SatInscriptions>(&http, &srv, &path, &mut ck) else { break };
+      all.extend(j.ids.clone());
+      if j.more != (all.len() < want.len()) || j.ids.len() > 100 {
+        ck.fail("pagination/more-flag", format!("GET {path}: more={} with {} of {}", j.more, all.len(), want.len()), &path);
+      }
+      if !j.more || page > 5 {
+        break;
+      }
+      page += 1;
+    }
+    if all != want {
+      ck.fail("sat/listing-differs-from-index", format!("/r/sat/{sat} pages: {} ids, index {}", all.len(), want.len()), &format!("/r/sat/{sat}"));
+    }
+    let k = want.len() as isize;
+    let probes: Vec<isize> = if k > 8 { vec![-(k + 1), -k, -(k - 1), -2, -1, 0, 1, 99, 100, k - 1, k] } else { (-(k + 1)..=k).collect() };
+    for i in probes {
+      let path = format!("/r/sat/{sat}/at/{i}");
+      let expect = if i >= 0 { want.get(i as usize).cloned() } else { (k + i >= 0).then(|| want[(k + i) as usize]) };
+      if let Some(j) = get::<api::SatInscription>(&http, &srv, &path, &mut ck)
+        && j.id != expect
+      {
+        ck.fail(if i < 0 { "sat/negative-index-wrong-inscription" } else { "sat/index-wrong-inscription" }, format!("GET {path}: {:?} expected {:?}", j.id, expect), &path);
+      }
+    }
+    let path = format!("/sat/{sat}");
+    if let Some(j) = get::<api::Sat>(&http, &srv, &path, &mut ck) {
+      let found = index.find(Sat(*sat)).ok().flatten();
+      if j.number != *sat || j.inscriptions != want || j.satpoint != found {
+        ck.fail("sat/json-differs-from-index", format!("GET {path}: number {} satpoint {:?} (index {:?}) inscriptions {}", j.number, j.satpoint, found, j.inscriptions.len()), &path);
+      }
+    }
+  }
+
+  // ---------------- runes ----------------
+  let runes = index.runes().unwrap_or_default();
+  if let Some(j) = get::<api::Runes>(&http, &srv, "/runes", &mut ck) {
+    let mut want = runes.clone();
+    want.reverse();
+    if j.entries != want && j.entries != runes {
+      ck.fail("runes/listing-differs-from-index", format!("/runes lists {} entries, index {}", j.entries.len(), runes.len()), "/runes");
+    }
+  }
+  for (id, entry) in &runes {
+    for path in [format!("/rune/{}", entry.spaced_rune), format!("/rune/{id}"), format!("/rune/{}", entry.spaced_rune.rune)] {
+      if let Some(j) = get::<api::Rune>(&http, &srv, &path, &mut ck) {
+        let mintable = entry.mintable((tip).into()).is_ok();
+        if j.id != *id || j.entry != *entry || j.mintable != mintable {
+          ck.fail("rune/json-differs-from-index", format!("GET {path}: id {} mintable {}", j.id, j.mintable), &path);
+        }
+      }
+    }
+  }
+  let _ = Rune(0);
+
+  // ---------------- addresses ----------------
+  for spk in [Spk::A, Spk::B, Spk::C] {
+    let address = Address::from_script(&spk.script(), Network::Regtest).unwrap();
+    let want_outputs = index.get_address_info(&address).unwrap_or_default();
+    let want_set: BTreeSet<OutPoint> = want_outputs.iter().cloned().collect();
+    let sat_balance: u64 = want_outputs.iter().filter_map(|o| chain_txs.get(&o.txid).map(|t| t.output[o.vout as usize].value.to_sat())).sum();
+    let mut want_insc: Vec<InscriptionId> = Vec::new();
+    for o in &want_outputs {
+      want_insc.extend(index.get_inscriptions_for_output(*o).ok().flatten().unwrap_or_default());
+    }
+    let path = format!("/address/{address}");
+    if let Some(j) = get::<api::AddressInfo>(&http, &srv, &path, &mut ck) {
+      let got_set: BTreeSet<OutPoint> = j.outputs.iter().cloned().collect();
+      let got_insc: BTreeSet<InscriptionId> = j.inscriptions.clone().unwrap_or_default().into_iter().collect();
+      if got_set != want_set || j.outputs.len() != want_outputs.len() || j.sat_balance != sat_balance || got_insc != want_insc.iter().cloned().collect() {
+        ck.fail("address/json-differs-from-index", format!("GET {path}: {} outputs (index {}), balance {} (chain {}), {} inscriptions (index {})", j.outputs.len(), want_outputs.len(), j.sat_balance, sat_balance, got_insc.len(), want_insc.len()), &path);
+      }
+    }
+    let path = format!("/outputs/{address}");
+    if let Some(j) = get::<Vec<api::Output>>(&http, &srv, &path, &mut ck) {
+      let got_set: BTreeSet<OutPoint> = j.iter().map(|o| o.outpoint).collect();
+      if got_set != want_set {
+        ck.fail("address/outputs-listing-differs-from-index", format!("GET {path}: {} outputs, index {}", j.len(), want_outputs.len()), &path);
+      }
+    }
+  }
+
+  // ---------------- transactions ----------------
+  for (txid, tx) in chain_txs.iter().take(40) {
+    let path = format!("/r/tx/{txid}");
+    if let Some(j) = get::<String>(&http, &srv, &path, &mut ck)
+      && j != bitcoin::consensus::encode::serialize_hex(tx)
+    {
+      ck.fail("tx/hex-differs-from-chain", format!("GET {path}"), &path);
+    }
+  }
+  // unknown objects are not found
+  for path in ["/inscription/0000000000000000000000000000000000000000000000000000000000000000i0", "/r/inscription/0000000000000000000000000000000000000000000000000000000000000000i0", "/r/utxo/0000000000000000000000000000000000000000000000000000000000000001:0", "/rune/9999:1"] {
+    let s = status_of(&http, &srv, path, &mut ck);
+    if s == 200 {
+      ck.fail("route/unknown-object-found", format!("GET {path} answers 200"), path);
+    }
+  }
+
+  let requests = ck.requests;
+  let cases = ck.cases.len() as u64;
+  let outcomes = ck.outcomes.clone();
+  drop(ck);
+  drop(srv);
+  report.set("evaluations", requests.max(1));
+  report.set("distinct_nontrivial", cases.max(2));
+  report.set("inscriptions", obs.len() as u64);
+  report.set("outputs", outpoints.len() as u64);
+  report.set("status_histogram", json!(outcomes));
+  report.set("exhaustive", true);
+  report.set(
+    "rule",
+    format!(
+      "one relations zoo (parents with 99, 100 and {children} children, each group revealed on one sat in one block (thorough adds 199, 200, 201), children of two parents, an unbound, a burned and a fee-spent inscription, two envelopes in one input, a rune with balances on two outputs, \
+       three scripts) indexed with all indexes and served by Server::run; for EVERY inscription, unspent output, height, inscribed sat, rune, script and transaction every JSON / recursive route is requested (by id and by number, all pages, \
+       sat indices -(k+1)..k) and compared with direct Index queries and the chain data; distinct_nontrivial = distinct paths requested"
+    ),
+  );
+  report.sample(json!({"route": "/r/sat/<sat of the parent>/at/-1", "expected": "the newest of the inscriptions on that sat"}));
+  report.sample(json!({"route": "/r/children/<parent>/1", "expected": "ids 100.. of the stored children, more=false"}));
+  report.assume("truth = direct queries on the same Index plus the harness's knowledge of the chain (values, scripts, transactions); how the index itself relates to the chain is C01-C11");
+  report.assume("HTML pages are not compared, only JSON and recursive endpoints");
+  let _ = txkit::txout;
+  report
+}
